@@ -144,6 +144,7 @@ def write_evidence(ctx: Ctx, proof: dict, violations: int, assumptions: list[str
         "checker_cmd": proof.get("checker_cmd", ""),
         "trusted_base": proof.get("trusted_base", []),
         "theorems": proof.get("theorems", []),
+        "coqchk": proof.get("coqchk"),
         "evaluations": ctx.evaluations,
         "distinct_nontrivial": len(ctx._distinct_nontrivial),
         "distinct": len(ctx._distinct),
